@@ -113,6 +113,9 @@ func snRealPrint(doc []byte, via string) (text string, err error) {
 	switch via {
 	case "rawstring":
 		var r nbt.RawMessage
+		if len(doc)%2 == 0 { // a RawMessage that held another document before (a variable reused across reads)
+			nbt.Unmarshal(nbtUsedDoc, &r)
+		}
 		if err = nbt.Unmarshal(doc, &r); err != nil {
 			return "", err
 		}
@@ -123,6 +126,9 @@ func snRealPrint(doc []byte, via string) (text string, err error) {
 		return text, nil
 	default:
 		var m nbt.StringifiedMessage
+		if len(doc)%2 == 0 {
+			nbt.Unmarshal(nbtUsedDoc, &m)
+		}
 		err = nbt.Unmarshal(doc, &m)
 		return string(m), err
 	}
